@@ -1006,13 +1006,18 @@ class Lowerer:
             return ld + s
         if k == 'ReturnStmt':
             gr = self.cur['spec'].get('ghost_returns') if self.cur.get('spec') else None
-            if gr and not self.cur.get('in_ghost_ret'):
-                self.cur['in_ghost_ret'] = True
-                try:
-                    inner_txt = self.stmt(n, d + 1)
-                finally:
-                    self.cur['in_ghost_ret'] = False
-                return I + '{ /* ghost */ ' + ' '.join(g.rstrip(';') + ';' for g in gr) + '\n' + inner_txt + I + '}\n'
+            if gr:
+                # the returned expression is evaluated first (it may call and move cursors), then the ghost statements run
+                gtxt = '/* ghost */ ' + ' '.join(g.rstrip(';') + ';' for g in gr)
+                if not n.get('inner'):
+                    return ld + I + '{ %s return; }\n' % gtxt
+                e = n['inner'][0]
+                rt = self.cur['ret']
+                if rt.is_ref():
+                    return ld + I + '{ %s = &(%s); %s return qx_rv; }\n' % (rt.decl('qx_rv', keep_const=False), self.expr(e), gtxt)
+                if rt.is_record():
+                    return ld + I + '{ %s; %s %s return qx_ret; }\n' % (rt.decl('qx_ret', keep_const=False), self.init_assign('qx_ret', rt, e), gtxt)
+                return ld + I + '{ %s = %s; %s return qx_rv; }\n' % (rt.decl('qx_rv', keep_const=False), self.expr(e), gtxt)
             if not n.get('inner'):
                 return ld + I + 'return;\n'
             e = n['inner'][0]
